@@ -10,7 +10,7 @@ import registry
 VERIF = os.path.dirname(os.path.dirname(os.path.abspath(__file__)))
 
 checks = []
-for pid, spec in sorted(registry.CHECKS.items()):
+for pid, spec in sorted((p, registry.CHECKS[p]) for p in registry.CLAIMED):
     checks.append({
         "property_id": pid,
         "quick_cmd": f"./check {pid} --tier quick",
@@ -29,7 +29,7 @@ for pid, spec in sorted(registry.CHECKS.items()):
         "technique": "solver-based checking of the real code: Kani 0.68 proof harnesses over kani::any() inputs, CBMC 6.11 + CaDiCaL, per-loop unwind bounds with unwinding assertions",
     })
 
-na = [{"property_id": pid, "reason": reason} for pid, reason in sorted(registry.NOT_APPLICABLE.items()) if pid not in registry.CHECKS]
+na = [{"property_id": pid, "reason": reason} for pid, reason in sorted(registry.NOT_APPLICABLE.items()) if pid not in registry.CLAIMED]
 
 manifest = {
     "version": 1,
@@ -42,7 +42,7 @@ manifest = {
         "add_only": True,
     },
     "engines": [
-        {"name": "kani-cbmc", "path": "/verif/check", "serves_properties": sorted(registry.CHECKS.keys()),
+        {"name": "kani-cbmc", "path": "/verif/check", "serves_properties": sorted(registry.CLAIMED),
          "kind_free_text": "Kani 0.68 (cargo kani) / CBMC 6.11 bounded model checking of the repository's Rust sources compiled against model crates in /verif/models"},
     ],
     "checks": checks,
